@@ -601,7 +601,7 @@ def run_tree_job(job, body, site_default='diff', path_wall_s=20, tick_cap=40000,
                 return None
         out = []
         if fails:
-            rep = replay(wit, body, job)
+            rep = replay(wit, body, job, wall=job.get('replay_wall', 15))
             rtags = set(f['tag'] for f in rep)
             for f in fails:
                 if f['tag'].startswith('exception'):
@@ -612,7 +612,7 @@ def run_tree_job(job, body, site_default='diff', path_wall_s=20, tick_cap=40000,
                 out.append(f)
         return out
 
-    st = explore(fn, on_path, budget_s=job.get('budget', budget), tick_cap=tick_cap, path_wall_s=path_wall_s,
+    st = explore(fn, on_path, budget_s=job.get('budget', budget), tick_cap=tick_cap, path_wall_s=job.get('path_wall_s', path_wall_s),
                  max_fail=max_fail)
     st['samples'] = samples
     st['extra'] = counters
@@ -622,6 +622,7 @@ def run_tree_job(job, body, site_default='diff', path_wall_s=20, tick_cap=40000,
 def replay(wit, body, job=None, wall=15):
     """Concrete re-run with every stub/shim removed (progress bar output suppressed)."""
     job = dict(job or {})
+    MONITOR.install()
     objA, objB = from_witness(wit['A']), from_witness(wit['B'])
     saved = Engine.cur
     Engine.cur = None
@@ -793,8 +794,8 @@ def tree_jobs(tier, want=None, extra=None, skip=None):
 
 
 KNOWN_DUP_JOBS = [
-    dict(fam='mset-dups-32', A=('mset', ileaves(3, 'a'), 'dups'), B=('mset', ileaves(2, 'a'), 'dups'), weight=50),
-    dict(fam='mset-dups-22', A=('mset', ileaves(2, 'c'), 'dups'), B=('mset', ileaves(2, 'c'), 'dups'), weight=50),
+    dict(fam='mset-dups-32', A=('mset', ileaves(3, 'a'), 'dups'), B=('mset', ileaves(2, 'a'), 'dups'), weight=50, path_wall_s=6, replay_wall=6),
+    dict(fam='mset-dups-22', A=('mset', ileaves(2, 'c'), 'dups'), B=('mset', ileaves(2, 'c'), 'dups'), weight=50, path_wall_s=6, replay_wall=6),
 ]
 
 
